@@ -220,6 +220,12 @@ example : lineCoord ⟨0, 0⟩ ⟨4, 2⟩ ⟨2, 1⟩ = true := by
 /-- the sign classes of `orient`, as a function of the determinant -/
 def oriOf (x : Rat) : Ori := if x > 0 then .ccw else if x < 0 then .cw else .col
 
+/-- the reversed orientation (`Orientation` after exchanging two arguments of `orient2d`) -/
+def oriRev : Ori → Ori
+  | .ccw => .cw
+  | .cw => .ccw
+  | .col => .col
+
 theorem orient_oriOf (p q r : Pt) : orient p q r = oriOf (cross p q r) := rfl
 
 theorem oriOf_pos {x : Rat} (h : 0 < x) : oriOf x = .ccw := by simp [oriOf, h]
